@@ -132,25 +132,65 @@ theorem sim3Exp_tangent_zero (eps : ℝ) (heps : 0 < eps) (x : ℝ → DVec ℝ)
       refine h6.exp.congr_deriv ?_
       simp [liftG, Vec3.toList, Quat.toList, hzs]
 
-/-- `t ↦ (1 + K(ψ)/2 + K(ψ)²/6)⁻¹·x` (adjugate formula) along curves `ψ(t)`, `x(t)` through `0`: velocity `ẋ` -/
+/-- `t ↦ (1 + K(ψ)/2 + K(ψ)²/6)⁻¹·x` (adjugate formula) along curves `ψ(t)`, `x(t)` through `0`: velocity `ẋ` (one lemma per component) -/
+theorem wsInvTaylor_comp0 (p0 p1 p2 x0 x1 x2 : ℝ → ℝ) (b0 b1 b2 c0 c1 c2 : ℝ)
+    (hp0 : HasDerivAt p0 b0 0) (hp1 : HasDerivAt p1 b1 0) (hp2 : HasDerivAt p2 b2 0)
+    (hx0 : HasDerivAt x0 c0 0) (hx1 : HasDerivAt x1 c1 0) (hx2 : HasDerivAt x2 c2 0)
+    (z0 : p0 0 = 0) (z1 : p1 0 = 0) (z2 : p2 0 = 0) (y0 : x0 0 = 0) (y1 : x1 0 = 0) (y2 : x2 0 = 0) :
+    HasDerivAt (fun t => nth ((polyK 1 (1/2) (1/6) ⟨p0 t, p1 t, p2 t⟩).inv.mulVec ⟨x0 t, x1 t, x2 t⟩).toList 0) c0 0 := by
+  have e0 := hp0.differentiableAt; have e1 := hp1.differentiableAt; have e2 := hp2.differentiableAt
+  have f0 := hx0.differentiableAt; have f1 := hx1.differentiableAt; have f2 := hx2.differentiableAt
+  simp only [polyK, Mat3.inv, Vec3.toList, nth_cons_zero, nth_cons_succ]
+  lie_unfold
+  try simp only [nth_cons_zero, nth_cons_succ]
+  refine HasDerivAt.congr_deriv (DifferentiableAt.hasDerivAt (by fun_prop (disch := simp [z0, z1, z2]))) ?_
+  simp (disch := first | fun_prop (disch := simp [z0, z1, z2]) | simp [z0, z1, z2]) only [deriv_fun_add, deriv_fun_sub, deriv_fun_mul,
+    deriv_fun_div, deriv_const, deriv_const_mul_field, deriv.fun_neg, hp0.deriv, hp1.deriv, hp2.deriv, hx0.deriv, hx1.deriv, hx2.deriv]
+  simp only [z0, z1, z2, y0, y1, y2]
+  norm_num
+
+theorem wsInvTaylor_comp1 (p0 p1 p2 x0 x1 x2 : ℝ → ℝ) (b0 b1 b2 c0 c1 c2 : ℝ)
+    (hp0 : HasDerivAt p0 b0 0) (hp1 : HasDerivAt p1 b1 0) (hp2 : HasDerivAt p2 b2 0)
+    (hx0 : HasDerivAt x0 c0 0) (hx1 : HasDerivAt x1 c1 0) (hx2 : HasDerivAt x2 c2 0)
+    (z0 : p0 0 = 0) (z1 : p1 0 = 0) (z2 : p2 0 = 0) (y0 : x0 0 = 0) (y1 : x1 0 = 0) (y2 : x2 0 = 0) :
+    HasDerivAt (fun t => nth ((polyK 1 (1/2) (1/6) ⟨p0 t, p1 t, p2 t⟩).inv.mulVec ⟨x0 t, x1 t, x2 t⟩).toList 1) c1 0 := by
+  have e0 := hp0.differentiableAt; have e1 := hp1.differentiableAt; have e2 := hp2.differentiableAt
+  have f0 := hx0.differentiableAt; have f1 := hx1.differentiableAt; have f2 := hx2.differentiableAt
+  simp only [polyK, Mat3.inv, Vec3.toList, nth_cons_zero, nth_cons_succ]
+  lie_unfold
+  try simp only [nth_cons_zero, nth_cons_succ]
+  refine HasDerivAt.congr_deriv (DifferentiableAt.hasDerivAt (by fun_prop (disch := simp [z0, z1, z2]))) ?_
+  simp (disch := first | fun_prop (disch := simp [z0, z1, z2]) | simp [z0, z1, z2]) only [deriv_fun_add, deriv_fun_sub, deriv_fun_mul,
+    deriv_fun_div, deriv_const, deriv_const_mul_field, deriv.fun_neg, hp0.deriv, hp1.deriv, hp2.deriv, hx0.deriv, hx1.deriv, hx2.deriv]
+  simp only [z0, z1, z2, y0, y1, y2]
+  norm_num
+
+theorem wsInvTaylor_comp2 (p0 p1 p2 x0 x1 x2 : ℝ → ℝ) (b0 b1 b2 c0 c1 c2 : ℝ)
+    (hp0 : HasDerivAt p0 b0 0) (hp1 : HasDerivAt p1 b1 0) (hp2 : HasDerivAt p2 b2 0)
+    (hx0 : HasDerivAt x0 c0 0) (hx1 : HasDerivAt x1 c1 0) (hx2 : HasDerivAt x2 c2 0)
+    (z0 : p0 0 = 0) (z1 : p1 0 = 0) (z2 : p2 0 = 0) (y0 : x0 0 = 0) (y1 : x1 0 = 0) (y2 : x2 0 = 0) :
+    HasDerivAt (fun t => nth ((polyK 1 (1/2) (1/6) ⟨p0 t, p1 t, p2 t⟩).inv.mulVec ⟨x0 t, x1 t, x2 t⟩).toList 2) c2 0 := by
+  have e0 := hp0.differentiableAt; have e1 := hp1.differentiableAt; have e2 := hp2.differentiableAt
+  have f0 := hx0.differentiableAt; have f1 := hx1.differentiableAt; have f2 := hx2.differentiableAt
+  simp only [polyK, Mat3.inv, Vec3.toList, nth_cons_zero, nth_cons_succ]
+  lie_unfold
+  try simp only [nth_cons_zero, nth_cons_succ]
+  refine HasDerivAt.congr_deriv (DifferentiableAt.hasDerivAt (by fun_prop (disch := simp [z0, z1, z2]))) ?_
+  simp (disch := first | fun_prop (disch := simp [z0, z1, z2]) | simp [z0, z1, z2]) only [deriv_fun_add, deriv_fun_sub, deriv_fun_mul,
+    deriv_fun_div, deriv_const, deriv_const_mul_field, deriv.fun_neg, hp0.deriv, hp1.deriv, hp2.deriv, hx0.deriv, hx1.deriv, hx2.deriv]
+  simp only [z0, z1, z2, y0, y1, y2]
+  norm_num
+
 theorem wsInvTaylor_curve (p0 p1 p2 x0 x1 x2 : ℝ → ℝ) (b0 b1 b2 c0 c1 c2 : ℝ)
     (hp0 : HasDerivAt p0 b0 0) (hp1 : HasDerivAt p1 b1 0) (hp2 : HasDerivAt p2 b2 0)
     (hx0 : HasDerivAt x0 c0 0) (hx1 : HasDerivAt x1 c1 0) (hx2 : HasDerivAt x2 c2 0)
     (z0 : p0 0 = 0) (z1 : p1 0 = 0) (z2 : p2 0 = 0) (y0 : x0 0 = 0) (y1 : x1 0 = 0) (y2 : x2 0 = 0) :
     LCurve 3 (fun t => ((polyK 1 (1/2) (1/6) ⟨p0 t, p1 t, p2 t⟩).inv.mulVec ⟨x0 t, x1 t, x2 t⟩).toList) [c0, c1, c2] := by
-  have e0 := hp0.differentiableAt; have e1 := hp1.differentiableAt; have e2 := hp2.differentiableAt
-  have f0 := hx0.differentiableAt; have f1 := hx1.differentiableAt; have f2 := hx2.differentiableAt
   intro i hi
   interval_cases i
-  all_goals
-    simp only [polyK, Mat3.inv, Vec3.toList, nth_cons_zero, nth_cons_succ]
-    lie_unfold
-    try simp only [nth_cons_zero, nth_cons_succ]
-    refine HasDerivAt.congr_deriv (DifferentiableAt.hasDerivAt (by fun_prop (disch := simp [z0, z1, z2]))) ?_
-    simp (disch := first | fun_prop (disch := simp [z0, z1, z2]) | simp [z0, z1, z2]) only [deriv_fun_add, deriv_fun_sub, deriv_fun_mul,
-      deriv_fun_div, deriv_const, deriv_const_mul_field, deriv.fun_neg, hp0.deriv, hp1.deriv, hp2.deriv, hx0.deriv, hx1.deriv, hx2.deriv]
-    simp only [z0, z1, z2, y0, y1, y2]
-    norm_num
+  · exact wsInvTaylor_comp0 p0 p1 p2 x0 x1 x2 b0 b1 b2 c0 c1 c2 hp0 hp1 hp2 hx0 hx1 hx2 z0 z1 z2 y0 y1 y2
+  · exact wsInvTaylor_comp1 p0 p1 p2 x0 x1 x2 b0 b1 b2 c0 c1 c2 hp0 hp1 hp2 hx0 hx1 hx2 z0 z1 z2 y0 y1 y2
+  · exact wsInvTaylor_comp2 p0 p1 p2 x0 x1 x2 b0 b1 b2 c0 c1 c2 hp0 hp1 hp2 hx0 hx1 hx2 z0 z1 z2 y0 y1 y2
 
 /-- **`Sim3_Log.backward` at the identity element** (`t = 0`, `q = ±1`, `s = 1`): exact.  Regime 1 of `rxso3_Ws` has constant
 coefficients, so away from `t = 0` the coded forward has no `σ`-dependence and the statement would be false. -/
